@@ -56,6 +56,14 @@ type tcase struct {
 	ReadFirst bool     `json:"read_first"`
 	Actions   []action `json:"actions"`
 	IP        string   `json:"ip"`
+	// Scanner reuse: before the measured Scan the SAME Scanner makes Prior completed Scans, each under a fresh context of
+	// its own, against a peer that answers PriorReply at once.  PriorCancel: each of those contexts is cancelled as soon as
+	// its Scan has returned (otherwise they stay live until the case ends).  The measured Scan then runs under ITS OWN
+	// context; the property speaks about every Scan call, whatever the Scanner did before.
+	Prior       int   `json:"prior,omitempty"`
+	PriorCancel bool  `json:"prior_cancel,omitempty"`
+	PriorReply  []int `json:"prior_reply,omitempty"`
+	PriorObs    []int `json:"prior_obs,omitempty"` // observation: outcome class of each prior Scan
 	// observations
 	Port        int     `json:"port"`
 	Obs         int     `json:"obs"`
@@ -454,6 +462,18 @@ func runCase(c *tcase) {
 		cli = &cliProbe{bin: c.E2E, timeout: c.TData}
 		s = cli
 	}
+	c.PriorObs = nil
+	if c.Prior > 0 && c.E2E == "" {
+		if msg := runPrior(c, s, ip, &cleanup); msg != "" {
+			c.Obs, c.Err = 98, "harness: "+msg
+			close(done)
+			if listener != nil {
+				listener.Close()
+			}
+			wg.Wait()
+			return
+		}
+	}
 	ctx, cancel := context.WithCancel(context.Background())
 	defer cancel()
 	req := &scan.Request{DstIP: ip, DstPort: uint16(c.Port)}
@@ -526,6 +546,71 @@ func runCase(c *tcase) {
 			}
 		}
 	}
+}
+
+// runPrior: c.Prior completed Scans on the Scanner s, each under a fresh context of its own, each against a fresh
+// loopback peer that reads the greeting and answers c.PriorReply at once.  Returns "" or what went wrong in the harness.
+func runPrior(c *tcase, s interface {
+	Scan(context.Context, *scan.Request) (scan.Result, error)
+}, ip net.IP, cleanup *[]func()) string {
+	for k := 0; k < c.Prior; k++ {
+		l, err := net.Listen("tcp4", net.JoinHostPort(c.IP, "0"))
+		if err != nil {
+			return err.Error()
+		}
+		release := make(chan struct{})
+		var pw sync.WaitGroup
+		pw.Add(1)
+		go func() {
+			defer pw.Done()
+			conn, err := l.Accept()
+			if err != nil {
+				return
+			}
+			defer conn.Close()
+			buf := make([]byte, 3)
+			conn.SetReadDeadline(time.Now().Add(2 * time.Second))
+			io.ReadFull(conn, buf)
+			rep := make([]byte, len(c.PriorReply))
+			for i, v := range c.PriorReply {
+				rep[i] = byte(v)
+			}
+			conn.SetWriteDeadline(time.Now().Add(300 * time.Millisecond))
+			conn.Write(rep)
+			<-release
+		}()
+		pctx, pcancel := context.WithCancel(context.Background())
+		type pout struct {
+			res scan.Result
+			err error
+		}
+		pch := make(chan pout, 1)
+		req := &scan.Request{DstIP: ip, DstPort: uint16(l.Addr().(*net.TCPAddr).Port)}
+		go func() {
+			res, err := s.Scan(pctx, req)
+			pch <- pout{res, err}
+		}()
+		limit := time.Duration(maxInt(c.TDial, 0)+3*maxInt(c.TData, 0))*time.Millisecond + 1500*time.Millisecond
+		msg := ""
+		select {
+		case o := <-pch:
+			c.PriorObs = append(c.PriorObs, classify(o.res, o.err))
+		case <-time.After(limit):
+			msg = fmt.Sprintf("prior Scan %d did not return within %v", k, limit)
+		}
+		close(release)
+		l.Close()
+		pw.Wait()
+		if c.PriorCancel || msg != "" {
+			pcancel()
+		} else {
+			*cleanup = append(*cleanup, pcancel) // stays live while the measured Scan runs
+		}
+		if msg != "" {
+			return msg
+		}
+	}
+	return ""
 }
 
 // ---------------------------------------------------------------- cancel-race sweep
@@ -786,8 +871,42 @@ func (g *gen) faults(n int) {
 	}
 }
 
+// reuse: the measured Scan is not the Scanner's first one.  The same Scanner has completed 1..3 Scans under OTHER
+// contexts (left live, or cancelled after their Scan returned); then the usual cancellation / stall / reply cases run
+// under a fresh context.  The property quantifies over every Scan call: prompt end on ITS context's cancellation, the
+// time bound, reported iff 05 00.
+func (g *gen) reuse(n int) {
+	for i := 0; i < n; i++ {
+		td, tt := g.timeouts()
+		a := 5
+		if g.r.Intn(3) == 0 {
+			a = g.r.Intn(256)
+		}
+		var c *tcase
+		switch i % 8 {
+		case 0, 1: // cancel while waiting for the reply
+			c = g.add("reuse:cancel-during-read", "accept", td, 600, 20+g.r.Intn(60), g.r.Bool())
+		case 2, 3: // cancel between the two reads
+			c = g.add("reuse:cancel-after-one-byte", "accept", td, 600, 30+g.r.Intn(60), true, send(0, a))
+		case 4: // cancel while the connection attempt is pending
+			c = g.add("reuse:cancel-during-dial", "blackhole", 600, tt, 20+g.r.Intn(60), false)
+		case 5: // no cancellation of the measured Scan: the time bound
+			c = g.add("reuse:accept-stall", "accept", td, tt, -1, g.r.Bool())
+		case 6: // a proxy is still reported
+			c = g.add("reuse:reply-05-00", "accept", td, tt, -1, true, send(g.r.Intn(tt/3), 5, 0))
+		default: // context cancelled before Scan
+			c = g.add("reuse:cancel-before", "accept", td, tt, 0, true, send(0, 5, 0))
+		}
+		c.Prior = 1 + g.r.Intn(3)
+		// the first half keeps the earlier contexts live, the rest is drawn
+		c.PriorCancel = i >= n/2 && g.r.Bool()
+		c.PriorReply = [][]int{{5, 0}, {5, 0}, {5, 255}, {72, 84}}[g.r.Intn(4)]
+	}
+}
+
 func main() {
 	out := flag.String("out", "cases.jsonl", "output file")
+	nreuse := flag.Int("reuse", 32, "number of generated Scanner-reuse cases (a Scan that is not the Scanner's first)")
 	seed := flag.Int64("seed", 1, "seed")
 	nfault := flag.Int("n", 300, "number of generated fault scripts")
 	nsample := flag.Int("sample", 200, "number of sampled two-byte replies besides the 5x / x0 families")
@@ -865,6 +984,7 @@ func main() {
 			}
 		}
 		g.faults(*nfault)
+		g.reuse(*nreuse)
 		if *e2e != "" {
 			for k := 0; k < 2; k++ {
 				for _, c := range []*tcase{
